@@ -596,6 +596,23 @@ fn check_solid_culling(si: usize, vi: usize, r: &mut Report) {
     r.nontrivial();
 }
 
+/// statistics accumulate over calls, including calls in which nothing survives, and through the Batch door
+fn check_accumulation(sc: &Scene, si: usize, hidden_tri: &STri, rep: &mut Report) {
+    rep.eval();
+    let ctx = ctx_plain();
+    let hidden = Scene { tris: vec![hidden_tri.clone()], ..sc.clone() };
+    let a = render_scene(sc, None, Door::Render, TargetKind::Owned, &ctx, Discard::Never, None);
+    let b = render_scene(&hidden, None, Door::Render, TargetKind::Owned, &ctx, Discard::Never, None);
+    let e = render_scene(&Scene { tris: vec![], ..sc.clone() }, None, Door::Render, TargetKind::Owned, &ctx, Discard::Never, None);
+    let c = render_scene(sc, None, Door::Batch, TargetKind::Owned, &ctx, Discard::Never, None);
+    if let (Ok(a), Ok(b), Ok(e), Ok(c)) = (a, b, e, c) {
+        let tot = ctx.stats.borrow().clone();
+        let okc = tot.calls == 4.0 && b.stats.calls == 1.0 && e.stats.calls == 1.0 && b.stats.prims.i == 1 && b.stats.prims.o == 0 && b.stats.verts.i == 3 && e.stats.prims.i == 0;
+        let oks = tot.prims.i == a.stats.prims.i + 1 + c.stats.prims.i && tot.frags.i == a.stats.frags.i + c.stats.frags.i && tot.frags.o == a.stats.frags.o + c.stats.frags.o && tot.prims.o == a.stats.prims.o + c.stats.prims.o && a.stats.frags.i == c.stats.frags.i;
+        if !okc || !oks { rep.violation(format!("stats-accumulation|scene{si}|{}", short(sc)), format!("after 4 calls (scene, fully hidden triangle, empty list, scene via Batch): calls={} prims={}/{} frags={}/{}; per call: {:?} {:?} {:?} {:?}", tot.calls, tot.prims.i, tot.prims.o, tot.frags.i, tot.frags.o, (a.stats.calls, a.stats.prims.i, a.stats.prims.o), (b.stats.calls, b.stats.prims.i, b.stats.prims.o), (e.stats.calls, e.stats.prims.i), (c.stats.calls, c.stats.prims.i, c.stats.prims.o)), obj! {"kind" => "accum", "scene" => scene_json(sc)}); } else { rep.nontrivial(); }
+    }
+}
+
 fn run_config(cfg: &Cfg) -> ! {
     let quick = cfg.quick();
     let mut rep = Report::new();
@@ -646,20 +663,8 @@ fn run_config(cfg: &Cfg) -> ! {
     rep.merge(par_range(cfg, 9 * 6, |i, r| check_solid_culling((i % 9) as usize, (i / 9) as usize, r)));
     // statistics accumulate over calls, including calls in which nothing survives
     for (si, sc) in scenes.iter().enumerate().take(if quick { 60 } else { scenes.len() }) {
-        rep.eval();
         if sc.vp.0 > sc.vp.2 { continue; }
-        let ctx = ctx_plain();
-        let hidden = Scene { tris: vec![pool[10].clone()], ..sc.clone() };
-        let a = render_scene(sc, None, Door::Render, TargetKind::Owned, &ctx, Discard::Never, None);
-        let b = render_scene(&hidden, None, Door::Render, TargetKind::Owned, &ctx, Discard::Never, None);
-        let e = render_scene(&Scene { tris: vec![], ..sc.clone() }, None, Door::Render, TargetKind::Owned, &ctx, Discard::Never, None);
-        let c = render_scene(sc, None, Door::Batch, TargetKind::Owned, &ctx, Discard::Never, None);
-        if let (Ok(a), Ok(b), Ok(e), Ok(c)) = (a, b, e, c) {
-            let tot = ctx.stats.borrow().clone();
-            let okc = tot.calls == 4.0 && b.stats.calls == 1.0 && e.stats.calls == 1.0 && b.stats.prims.i == 1 && b.stats.prims.o == 0 && b.stats.verts.i == 3 && e.stats.prims.i == 0;
-            let oks = tot.prims.i == a.stats.prims.i + 1 + c.stats.prims.i && tot.frags.i == a.stats.frags.i + c.stats.frags.i && tot.frags.o == a.stats.frags.o + c.stats.frags.o && tot.prims.o == a.stats.prims.o + c.stats.prims.o && a.stats.frags.i == c.stats.frags.i;
-            if !okc || !oks { rep.violation(format!("stats-accumulation|scene{si}|{}", short(sc)), format!("after 4 calls (scene, fully hidden triangle, empty list, scene via Batch): calls={} prims={}/{} frags={}/{}; per call: {:?} {:?} {:?} {:?}", tot.calls, tot.prims.i, tot.prims.o, tot.frags.i, tot.frags.o, (a.stats.calls, a.stats.prims.i, a.stats.prims.o), (b.stats.calls, b.stats.prims.i, b.stats.prims.o), (e.stats.calls, e.stats.prims.i), (c.stats.calls, c.stats.prims.i, c.stats.prims.o)), obj! {"kind" => "accum", "scene" => scene_json(sc)}); } else { rep.nontrivial(); }
-        }
+        check_accumulation(sc, si, &pool[10], &mut rep);
     }
     rep.sample(0, || obj! {"scene" => "2 overlapping triangles, 8x6 buffer viewport (1,2)..(7,5)", "flags" => "cull Front, sort BackToFront, test Greater, color_write off, depth_write on", "discard" => "Parity", "target" => "ColorOnly"});
     rep.finish(cfg, "exploration",
@@ -685,6 +690,7 @@ fn main() {
                 }
                 "order" | "painter" => explore_order(&scene_from(c.get("scene").unwrap()), r, 0, if c.get("discard").and_then(|j| j.as_str()) == Some("Parity") { Discard::Parity } else { Discard::Never }),
                 "config" => check_config(&scene_from(c.get("scene").unwrap()), c.get("flags").unwrap().as_u64().unwrap() as u32, match c.get("discard").and_then(|j| j.as_str()).unwrap_or("") { "Always" => Discard::Always, "Parity" => Discard::Parity, _ => Discard::Never }, kind(c), r),
+                "accum" => { let pool = order_pool(); check_accumulation(&scene_from(c.get("scene").unwrap()), 0, &pool[10], r) }
                 "solid" => check_solid_culling(c.get("solid").unwrap().as_u64().unwrap() as usize, c.get("view").unwrap().as_u64().unwrap() as usize, r),
                 "cull" => { let s = scene_from(c.get("scene").unwrap()); check_cull(&s.tris[0], s.bw, s.bh, s.vp, kind(c), r) }
                 k => machinery_error(&format!("replay kind {k} unsupported")),
